@@ -145,6 +145,103 @@ struct DocGen {
 inline GenDoc genDoc(Rng& g, const DocCfg& c) { DocGen d(g, c); return d.make(); }
 
 // ---------------------------------------------------------------------------------------------
+// XPath expressions from the grammar.  safe = type-correct, right arity, no address- or form-dependent functions (for stylesheets
+// whose output is compared); wild = also wrong arity, unknown names, extreme literals (for the no-crash check only).
+// ---------------------------------------------------------------------------------------------
+struct ExprGen {
+    Rng& g; bool wild; const std::vector<std::string>& names;
+    ExprGen(Rng& g_, bool wild_, const std::vector<std::string>& names_) : g(g_), wild(wild_), names(names_) {}
+    std::string nm() { return names.empty() ? "a" : names[g.below(names.size())]; }
+    std::string nodeTest() {
+        switch (g.below(wild ? 12 : 10)) { case 0: case 1: case 2: return nm(); case 3: case 4: return "*"; case 5: return "node()"; case 6: return "text()"; case 7: return "comment()";
+            case 8: return g.chance(1, 2) ? "processing-instruction()" : "processing-instruction('pi1')"; case 9: return "p1:*"; case 10: return "nosuch:x"; default: return "element()"; } }
+    std::string step(int d) {
+        static const std::vector<std::string> axes = { "child", "descendant", "descendant-or-self", "parent", "ancestor", "ancestor-or-self", "following-sibling", "preceding-sibling", "following", "preceding", "self", "attribute" };
+        std::string s; unsigned k = (unsigned)g.below(10);
+        if (k == 0) return "."; if (k == 1) return "..";
+        if (k == 2) { static const std::vector<std::string> at = { "@id", "@k", "@v", "@*", "@rk", "@ref", "@p1:x", "@xml:lang" }; return g.pick(at); }
+        if (k < 6) s = nodeTest();
+        else { std::string ax = wild && g.chance(1, 20) ? std::string("sideways") : g.pick(axes); s = ax + "::" + (ax == "attribute" ? (g.chance(1, 2) ? "*" : "k") : nodeTest()); }
+        int np = d > 0 ? (int)g.below(3) : 0; if (np == 2 && !g.chance(1, 3)) np = 1;
+        for (int i = 0; i < np; ++i) s += "[" + pred(d - 1) + "]";
+        return s;
+    }
+    std::string pred(int d) { unsigned k = (unsigned)g.below(6); if (k == 0) return std::to_string(g.range(1, 4)); if (k == 1) return "last()"; if (k == 2) return "position() " + std::string(g.chance(1, 2) ? "&lt; " : "&gt; ") + std::to_string(g.range(1, 3)); if (k == 3) return nset(d); return boolean(d); }
+    std::string path(int d) {
+        std::string s; unsigned k = (unsigned)g.below(8); if (k == 0) s = "/"; else if (k < 3) s = "//"; else if (k == 3) s = "/doc/";
+        int n = (int)g.range(1, 3); for (int i = 0; i < n; ++i) { if (i) s += g.chance(1, 4) ? "//" : "/"; s += step(d); }
+        return s;
+    }
+    std::string nset(int d) {
+        unsigned k = (unsigned)g.below(d > 0 ? 10 : 5);
+        if (k < 5) return path(d);
+        if (k == 5) return nset(d - 1) + " | " + nset(d - 1);
+        if (k == 6) return "(" + nset(d - 1) + ")[" + pred(d - 1) + "]";
+        if (k == 7) return "id(" + (g.chance(1, 2) ? std::string("'n1 n3 n5'") : str(d - 1)) + ")";
+        if (k == 8) return "(" + nset(d - 1) + ")/" + step(d - 1);
+        return "(" + path(d) + ")[" + pred(d - 1) + "]";
+    }
+    std::string numLit() { static const std::vector<std::string> lits = { "0", "1", "2", "3", "7", "10", "0.5", "1.5", "-1", "100", "1000000", ".25", "3.", "0.000001" }; static const std::vector<std::string> wl = { "99999999999999999999999999999999", "1e3", "0x10", "-0", "1 div 0", "0 div 0", "9223372036854775807", "4294967296", "-2147483649" }; return wild && g.chance(1, 4) ? g.pick(wl) : g.pick(lits); }
+    std::string num(int d) {
+        unsigned k = (unsigned)g.below(d > 0 ? 12 : 4);
+        if (k < 2) return numLit(); if (k == 2) return "position()"; if (k == 3) return "count(" + path(0) + ")";
+        if (k == 4) return "count(" + nset(d - 1) + ")"; if (k == 5) return "sum(" + nset(d - 1) + "/@v)";
+        if (k == 6) return "string-length(" + str(d - 1) + ")";
+        if (k == 7) { static const std::vector<std::string> ops = { " + ", " - ", " * ", " div ", " mod " }; return "(" + num(d - 1) + g.pick(ops) + num(d - 1) + ")"; }
+        if (k == 8) return "-" + num(d - 1);
+        if (k == 9) { static const std::vector<std::string> fs = { "floor", "ceiling", "round" }; return g.pick(fs) + "(" + num(d - 1) + ")"; }
+        if (k == 10) return "number(" + any(d - 1) + ")";
+        return "last()";
+    }
+    std::string strLit() { static const std::vector<std::string> lits = { "''", "'a'", "'k1'", "'n3'", "'abc def'", "' '", "'1'", "'-12.5'", "'true'", "'&#xE9;&#x20AC;'", "'&lt;&amp;'", "&quot;it's&quot;" }; return g.pick(lits); }
+    std::string str(int d) {
+        unsigned k = (unsigned)g.below(d > 0 ? 14 : 3);
+        if (k < 2) return strLit(); if (k == 2) return "string(" + path(0) + ")";
+        if (k == 3) return "string(" + any(d - 1) + ")";
+        if (k == 4) { int n = (int)g.range(2, 4); std::string s = "concat("; for (int i = 0; i < n; ++i) { if (i) s += ", "; s += str(d - 1); } return s + ")"; }
+        if (k == 5) return "substring(" + str(d - 1) + ", " + num(d - 1) + (g.chance(1, 2) ? ", " + num(d - 1) : std::string()) + ")";
+        if (k == 6) return std::string(g.chance(1, 2) ? "substring-before(" : "substring-after(") + str(d - 1) + ", " + str(d - 1) + ")";
+        if (k == 7) return "translate(" + str(d - 1) + ", " + strLit() + ", " + strLit() + ")";
+        if (k == 8) return "normalize-space(" + (g.chance(1, 4) ? std::string() : str(d - 1)) + ")";
+        if (k == 9) { static const std::vector<std::string> fs = { "name", "local-name", "namespace-uri" }; return g.pick(fs) + "(" + (g.chance(1, 3) ? std::string() : nset(d - 1)) + ")"; }
+        if (k == 10) return "format-number(" + num(d - 1) + ", '#,##0.0#')";
+        if (k == 11) return "string(" + boolean(d - 1) + ")";
+        if (k == 12) return "string(" + num(d - 1) + ")";
+        return "system-property('xsl:version')";
+    }
+    std::string boolean(int d) {
+        unsigned k = (unsigned)g.below(d > 0 ? 12 : 3);
+        static const std::vector<std::string> rel = { " = ", " != ", " &lt; ", " &lt;= ", " &gt; ", " &gt;= " };
+        if (k == 0) return g.chance(1, 2) ? "true()" : "false()"; if (k == 1) return path(0); if (k == 2) return "@k = 'k1'";
+        if (k == 3) return num(d - 1) + g.pick(rel) + num(d - 1);
+        if (k == 4) return str(d - 1) + (g.chance(1, 2) ? " = " : " != ") + str(d - 1);
+        if (k == 5) return nset(d - 1) + g.pick(rel) + any(d - 1);
+        if (k == 6) return "(" + boolean(d - 1) + (g.chance(1, 2) ? " and " : " or ") + boolean(d - 1) + ")";
+        if (k == 7) return "not(" + boolean(d - 1) + ")";
+        if (k == 8) return std::string(g.chance(1, 2) ? "contains(" : "starts-with(") + str(d - 1) + ", " + str(d - 1) + ")";
+        if (k == 9) return g.chance(1, 2) ? "lang('en')" : "lang('fr')";
+        if (k == 10) return "boolean(" + any(d - 1) + ")";
+        return nset(d - 1);
+    }
+    std::string any(int d) { if (d < 0) d = 0; switch (g.below(4)) { case 0: return nset(d); case 1: return num(d); case 2: return str(d); default: return boolean(d); } }
+    // wild extras: wrong arity, unknown functions, variable references, stray tokens
+    std::string wildExpr(int d) {
+        unsigned k = (unsigned)g.below(12);
+        if (k == 0) return "concat(" + str(d) + ")"; if (k == 1) return "substring(" + str(d) + ")"; if (k == 2) return "nosuchfn(" + any(d) + ")"; if (k == 3) return "$nosuch + " + num(d);
+        if (k == 4) return "count(" + num(d) + ")"; if (k == 5) return "sum(" + str(d) + ")"; if (k == 6) return nset(d) + "/" + num(d); if (k == 7) return "key('nokey', " + str(d) + ")";
+        if (k == 8) return "document(" + str(d) + ")//x"; if (k == 9) return "format-number(" + num(d) + ", " + str(d) + ", 'nodf')"; if (k == 10) return "round(" + num(d) + ", 2)";
+        return "(" + any(d) + ")[" + any(d) + "][" + any(d) + "]";
+    }
+    // returns (expression, kind) with kind N | D | S | B
+    std::pair<std::string, char> make(int depth) {
+        if (wild && g.chance(1, 3)) return { wildExpr(depth), 'W' };
+        switch (g.below(4)) { case 0: return { nset(depth), 'N' }; case 1: return { num(depth), 'D' }; case 2: return { str(depth), 'S' }; default: return { boolean(depth), 'B' }; }
+    }
+};
+// an expression as it is written in an API string (entities of the XML attribute form resolved)
+inline std::string exprPlain(std::string e) { for (auto& r : std::vector<std::pair<std::string, std::string>>{ { "&lt;", "<" }, { "&gt;", ">" }, { "&quot;", "\"" }, { "&#xE9;", "\xC3\xA9" }, { "&#x20AC;", "\xE2\x82\xAC" }, { "&amp;", "&" } }) { size_t q; while ((q = e.find(r.first)) != std::string::npos) e.replace(q, r.first.size(), r.second); } return e; }
+
+// ---------------------------------------------------------------------------------------------
 // Stylesheets
 // ---------------------------------------------------------------------------------------------
 struct SSCfg {
@@ -183,7 +280,7 @@ inline const std::vector<std::string>& allFeatures() {
         "lre", "message", "modes", "sort2", "comment-pi", "exslt-set", "exslt-math", "exslt-str", "genid", "lang", "sysprop", "param", "ifbool",
         "union", "preds", "valnum", "apply-imports", "text-nodes", "ns-axis", "doctype-node", "attr-nodes", "number-value", "bigfmt", "xalan-ext", "docfn", "avt-ns", "extfn", "paramuse", "gate", "num-gate", "sortlang", "num-value", "lazyvar", "manyrtf", "deeprec", "padsupp", "top-nodes", "doe", "sort-gate", "bignum-alpha",
         "num-punct", "num-exotic", "ext-evaluate", "rtf-key", "key-prefixed", "key-variant",
-        "nsalias", "withparam", "fmtnum-pat", "doc2", "unparsed-entity", "nsfix", "numconv", "keynodeset"
+        "nsalias", "withparam", "fmtnum-pat", "doc2", "unparsed-entity", "nsfix", "numconv", "keynodeset", "randexpr"
     };
     return f;
 }
@@ -289,6 +386,11 @@ struct SSGen {
         if (on("numconv")) perNode += o("numconv", vo("string(0 div 0)") + "," + vo("string(-1 div 0)") + "," + vo("string(-0 * 1)") + "," + vo("string(0.1 + 0.2)") + "," + vo("string(1 div 3)") + "," + vo("string(123456789012)") + "," + vo("string(0.000001)") + "," + vo("string(1000000 * 1000000 * 1000000 * 1000)") + "," + vo("number('  -.5 ')") + "," + vo("number('1.')") + "," + vo("number('+1')") + "," + vo("number(true()) + number(@nosuch = 1)") + "," + vo("round(-0.5)") + "," + vo("round(2.5)") + "," + vo("floor(-0.1)") + "," + vo("substring('12345', 0 div 0, 3)") + "," + vo("substring('12345', -1 div 0, 1 div 0)") + "," + vo("boolean('false')") + "," + vo("string(@v = */@v)") + "," + vo("string(*/@v &gt; 10)"));
         // key() and id() with node-set arguments; a key whose use expression yields several values
         if (on("keynodeset")) { top += "<xsl:key name=\"kns\" match=\"*\" use=\"@k | @v\"/>"; perNode += o("keynodeset", vo("count(key('kns', */@k))") + ":" + vo("count(key('kns', @k | @v))") + ":" + vo("count(id(*/@ref))") + ":" + vo("count(key('kns', 'k1') | key('kns', 'k2'))")); }
+        // expressions drawn from the XPath grammar (type-correct), evaluated at every fourth element and once at the root
+        if (on("randexpr")) { ExprGen eg(g, false, d.names); std::string body, rootb;
+            for (int i = 0; i < 4; ++i) { auto e = eg.make(3); std::string show = e.second == 'N' ? "<xsl:value-of select=\"count(" + e.first + ")\"/>:<xsl:for-each select=\"(" + e.first + ")[position() &lt; 6]\"><xsl:value-of select=\"concat(name(), '=', @id, ' ')\"/></xsl:for-each>" : vo("string(" + e.first + ")");
+                body += "{" + show + "}"; if (i < 2) rootb += "{" + show + "}"; }
+            perNode += "<xsl:if test=\"count(preceding::*) mod 4 = 0\">" + o("randexpr", body) + "</xsl:if>"; rootBody += "<o f=\"randexpr\" n=\"/\">" + rootb + "</o>"; }
         // many result tree fragments alive at the same time (arena blocks of the fragment allocators hold 10)
         if (on("manyrtf")) { std::string vars, uses; for (int i = 0; i < 13; ++i) { std::string n = "mr" + std::to_string(i); vars += "<xsl:variable name=\"" + n + "\"><r" + std::to_string(i) + "><xsl:value-of select=\"@id\"/></r" + std::to_string(i) + ">t" + std::to_string(i) + "</xsl:variable>"; uses += "<xsl:value-of select=\"string-length($" + n + ")\"/>,"; }
             perNode += "<xsl:if test=\"count(preceding::*) mod 4 = 0\">" + vars + "<o f=\"manyrtf\" n=\"{@id}\">" + uses + "<xsl:copy-of select=\"$mr12\"/></o></xsl:if>"; }
